@@ -20,7 +20,7 @@ func sortStrings(x []string) { sort.Strings(x) }
 
 // ---------- logical events ----------
 type Val struct {
-	Kind string  // "i" int, "f" float, "s" string
+	Kind string  // "i" int, "f" float, "s" string, "n" string that is the decimal text of the integer I (S = the text)
 	I    int64   `json:",omitempty"`
 	F    float64 `json:",omitempty"`
 	S    string  `json:",omitempty"`
@@ -82,7 +82,7 @@ func (p pCmp) match(e Event) bool {
 		return p.Op == 1
 	}
 	x := v.F
-	if v.Kind == "i" {
+	if v.Kind == "i" || v.Kind == "n" {
 		x = float64(v.I)
 	}
 	return cmpF(p.Op, x, p.Lit)
@@ -191,7 +191,7 @@ func statVal(fn string, evs []Event) (string, bool) {
 			continue
 		}
 		switch v.Kind {
-		case "i":
+		case "i", "n":
 			xs = append(xs, float64(v.I))
 		case "f":
 			xs = append(xs, v.F)
@@ -433,7 +433,7 @@ func cellCoq(e Event, col string) string {
 		return "None"
 	}
 	switch v.Kind {
-	case "i":
+	case "i", "n": // a numeric string sharing its block with numbers is stored as a number (consolidateColumnTypes)
 		return "(Some (VI " + cz(v.I) + "))"
 	case "f":
 		return "(Some (VF " + cq(v.F) + "))"
@@ -462,7 +462,7 @@ func e2eComparable(evs []Event, q Query, l LayoutCfg) bool {
 		if v.Kind == "s" {
 			return false
 		}
-		if v.Kind != "i" {
+		if v.Kind != "i" && v.Kind != "n" {
 			allI = false
 		}
 		if v.Kind != "f" {
@@ -995,6 +995,93 @@ func (p pGlobNum) match(e Event) bool {
 	return globMatch(strings.ToLower(p.Pat), strings.ToLower(t))
 }
 
+func nv(i int64, text string) Val { return Val{Kind: "n", I: i, S: text} }
+
+// numeric strings mixed with JSON numbers in one column: at the block flush consolidateColumnTypes turns the strings
+// into numbers and must add them to the block's range index.  Every block (k events per flush) starts with a native
+// number, so that the conversion happens in every layout of the stream (a block holding only the string keeps a string
+// column: known class mixed_type_column_converted_per_block / C01); in many blocks the string holds the block's
+// maximum or minimum, and the literals lie beyond the native numbers.
+func numStrStream(rng *vhlib.Rng, idx int, thorough bool) Stream {
+	k := rng.Range(3, 4)
+	n := rng.Range(9, 13)
+	if thorough {
+		n = rng.Range(12, 30)
+	}
+	native := []int64{1, 2, 3, 4, 5, 6, 2, 3}
+	type ns struct {
+		v int64
+		t string
+	}
+	strs := []ns{{50, "50"}, {-7, "-7"}, {7, "007"}, {9, "9"}, {50, "50"}, {100, "100"}, {-20, "-20"}, {0, "0"}, {3, "3"}}
+	evs := make([]Event, n)
+	lits := map[int64]bool{}
+	for i := range evs {
+		e := Event{Id: i}
+		if i%k == 0 || rng.Chance(45) {
+			v := vhlib.Pick(rng, native)
+			e.set("val", iv(v))
+			e.set("num", iv(v))
+		} else {
+			x := vhlib.Pick(rng, strs)
+			e.set("val", nv(x.v, x.t))
+			e.set("num", iv(x.v))
+			lits[x.v] = true
+		}
+		e.set("g", sv(vhlib.Pick(rng, grpPool)))
+		evs[i] = e
+	}
+	var qs []Query
+	add := func(col string, op int, lit int64) {
+		q := cmpQ(col, op, strconv.FormatInt(lit, 10))
+		q.Cols = []string{col}
+		qs = append(qs, q)
+	}
+	for _, l := range []int64{10, 6, 49, 50, 99, 100, 0, -7, -8, -21, 7, 2} {
+		for _, op := range []int{0, 2, 3, 4, 5} {
+			if lits[l] || op >= 2 && rng.Chance(50) {
+				add("val", op, l)
+			}
+		}
+	}
+	add("val", 1, 50)
+	add("num", 4, 10)
+	add("num", 0, 50)
+	// the record-level filter, which never consults a micro index
+	for _, w := range []struct {
+		t  string
+		op int
+		l  float64
+	}{{"* | where val>10", 4, 10}, {"* | where val=50", 0, 50}, {"* | where val<0", 2, 0}, {"* | where val>=7", 5, 7}} {
+		qs = append(qs, Query{Text: w.t, P: pCmp{"val", w.op, w.l}, Kind: "where"})
+	}
+	qs = append(qs,
+		Query{Text: "val>6 g=a", P: pAnd{pCmp{"val", 4, 6}, pStrEq{"g", "a", false}}, Kind: "bool"},
+		Query{Text: "* | stats count, max(val), min(val), sum(val)", P: pAll{}, Kind: "stats", Stats: []string{"count", "max(val)", "min(val)", "sum(val)"}},
+		Query{Text: "val>10 | stats count, sum(val) by g", P: pCmp{"val", 4, 10}, Kind: "stats", Stats: []string{"count", "sum(val)"}, By: "g"},
+	)
+	layouts := []LayoutCfg{
+		{Name: "one_rot", Every: 0, Final: true, Aggs: true},
+		{Name: "one_open", Every: 0, Final: false, Aggs: true, DumpRanges: "val"},
+		{Name: fmt.Sprintf("e%d_rot", k), Every: k, Final: true, Aggs: true},
+		{Name: fmt.Sprintf("e%d_open", k), Every: k, Final: false, Aggs: true, DumpRanges: "val"},
+		{Name: fmt.Sprintf("e%d_segs", k), Every: k, Rotate: 2, Final: false, Aggs: true},
+		{Name: fmt.Sprintf("e%d_raw", k), Every: k, Final: true, Aggs: true, Card: 1},
+		{Name: fmt.Sprintf("e%d_noaggs", k), Every: k, Final: true, Aggs: false},
+		{Name: fmt.Sprintf("e%d_p1", k), Every: k, Final: true, Aggs: true, Procs: 1},
+		{Name: fmt.Sprintf("e%d_pqs_open", k), Every: k, Final: false, Aggs: true, PQS: true},
+		{Name: fmt.Sprintf("e%d_pqs_rot", k), Every: k, Final: true, Aggs: true, PQS: true},
+	}
+	return Stream{Name: fmt.Sprintf("ns%d", idx), Events: evs, Layouts: layouts, Queries: qs,
+		ClassOf: func(l LayoutCfg, q Query) string {
+			// known: the ingest-time persistent-query match sees the string, before the block's column is converted to numbers
+			if l.PQS {
+				return "pqs_match_before_type_consolidation"
+			}
+			return ""
+		}}
+}
+
 func runMeta(cfg vhlib.Config, sum *vhlib.Summary, rng *vhlib.Rng) {
 	ctx := &evalCtx{sum: sum, cfg: cfg}
 	nmain := 8
@@ -1011,6 +1098,13 @@ func runMeta(cfg vhlib.Config, sum *vhlib.Summary, rng *vhlib.Rng) {
 	}
 	for i := 0; i < npq; i++ {
 		streams = append(streams, pqsStream(rng.Fork(), i, cfg.Thorough()))
+	}
+	nns := 2
+	if cfg.Thorough() {
+		nns = 20
+	}
+	for i := 0; i < nns; i++ {
+		streams = append(streams, numStrStream(rng.Fork(), i, cfg.Thorough()))
 	}
 	streams = append(streams, knownStreams(rng.Fork())...)
 	// streams run one after the other, the layouts of a stream in parallel worker processes
